@@ -26,20 +26,21 @@ void typedh_body(int rank, int prog, int cls, int k, void *ptr)
     char line[4096];
     int o = snprintf(line, sizeof(line), "rank %d BODY %s(%d) ptr %p\n", rank, d->name, k, ptr);
     if (d->role == 0) for (int i = 0; i < n * n; i++) p[i] = 1000 * (k + 1) + 10 * (i / n) + i % n;
-    if (p) for (int i = 0; i < n; i++) {
+    if (p && n <= 8) for (int i = 0; i < n; i++) {
         o += snprintf(line + o, sizeof(line) - o, "      ");
         for (int j = 0; j < n; j++) o += snprintf(line + o, sizeof(line) - o, " %6lld", (long long)p[j * n + i]);
         o += snprintf(line + o, sizeof(line) - o, "\n");
     }
     fputs(line, stdout);
     fflush(stdout);
-    usleep(200);
+    usleep(getenv("TYPED_REAL_BODY_US") ? atoi(getenv("TYPED_REAL_BODY_US")) : 200);      /* long bodies widen windows */
 }
 int main(int argc, char **argv)
 {
     FILE *f = fopen(argv[1], "rb");
     if (!f || fread(&SH, sizeof(SH), 1, f) != 1) { fprintf(stderr, "cannot read %s\n", argv[1]); return 2; }
     fclose(f);
+    if (getenv("TYPED_REAL_N")) SH.n = atoi(getenv("TYPED_REAL_N"));       /* larger tiles than the simulation uses (transfer time) */
     if (argc > 2) setenv("PARSEC_MCA_mca_sched", argv[2], 1);
     const char *r = getenv("OMPI_COMM_WORLD_RANK");
     typed_rank_arg_t ra = {&SH, r ? atoi(r) : 0};
